@@ -176,6 +176,25 @@ def main(tier, seed):
         if rng.random() < 0.3:
             u1 = ("scale", u2, rng.choice(uexpr.SCALES[:6]))
         trait_cases.append((u1, u2, rng.choice(["f64", "i32", "f32", "i64"]), rng.choice(["f64", "i32", "u8"])))
+    # mismatched dimensions with EQUAL magnitudes and integral reps (m vs s, km vs ks, N vs J): the scale factor between them is
+    # Magnitude<>, the one value for which the policy has an integer-promotion carve-out; the dimension guard must still say no
+    by_mag = {}
+    for k in keys:
+        by_mag.setdefault(tuple(sorted(A.atoms[k]["mag"].items())), []).append(k)
+    groups = [g for g in by_mag.values() if len({tuple(sorted(A.atoms[k]["dim"].items())) for k in g}) > 1]
+    for _ in range(40 if tier == "quick" else 400):
+        if not groups:
+            break
+        g = rng.choice(groups)
+        a, b = rng.sample(g, 2)
+        if A.atoms[a]["dim"] == A.atoms[b]["dim"]:
+            continue
+        r1, r2 = rng.choice([("i32", "i32"), ("i32", "i64"), ("u8", "i32"), ("i64", "i64"), ("i16", "i32"), ("u8", "u8"), ("i32", "f64"), ("f32", "f64")])
+        t1, t2 = ("atom", a), ("atom", b)
+        if rng.random() < 0.3:
+            sc = rng.choice(uexpr.SCALES[:4])
+            t1, t2 = ("scale", t1, sc), ("scale", t2, sc)
+        trait_cases.append((t1, t2, r1, r2))
     configs = [("g++", "c++14")]
     other = [c for c in CONFIGS if c != ("g++", "c++14") and c[1] != "c++20"]
     cfg2 = other[seed % len(other)]
